@@ -65,6 +65,13 @@ Definition block_col {A} (cols : Z) (i : Z) (data : list A) : list A :=
 (* one <DataArray> *)
 Record darray := mkDA { da_point : bool; da_name : str; da_ncomp : Z; da_words : list word }.
 
+(* vecname: key, or key(i) for blocks; point data pads i with zeros to nzeros digits, cell data does not *)
+Definition vec_name (point : bool) (nvec : Z) (key : str) (i : Z) : str :=
+  key ++ [40] ++ (if point then zpad (Z.to_nat (nzeros nvec)) (dec i) else dec i) ++ [41].
+(* the array written for one vector: 2-component point vectors of a 2-D domain are padded to three components *)
+Definition mk_array (point padv : bool) (n ncomp : Z) (name : str) (v : list word) : darray :=
+  if padv then mkDA point name 3 (pad3 zero_word (Z.to_nat n) v) else mkDA point name ncomp v.
+
 (* the arrays written for one dictionary entry (n = nnodes for point data, nel for cell data) *)
 Definition entry_arrays (point dim2 : bool) (n : Z) (key : str) (shape : list Z) (ws : list word)
   : res (list darray) :=
@@ -75,17 +82,13 @@ Definition entry_arrays (point dim2 : bool) (n : Z) (key : str) (shape : list Z)
     let padv := point && (ncomp =? 2) && dim2 in            (* pad_to_vector *)
     if 2 <? ndim shape then Err AssertionError else        (* assert vec.ndim <= 2 *)
     let nvec := if ndim shape =? 1 then 1 else nth (Z.to_nat ((ax + 1) mod 2)) shape 0 in
-    let nz := nzeros nvec in
-    let finish (name : str) (v : list word) :=
-      if padv then mkDA point name 3 (pad3 zero_word (Z.to_nat n) v) else mkDA point name ncomp v in
     if 1 <? nvec then
       let cols := nth 1 shape 0 in
-      Ok (map (fun i =>
-             finish (key ++ [40] ++ (if point then zpad (Z.to_nat nz) (dec i) else dec i) ++ [41])
-                    (if ax =? 0 then block_col cols i ws else block_row cols i ws))
+      Ok (map (fun i => mk_array point padv n ncomp (vec_name point nvec key i)
+                                 (if ax =? 0 then block_col cols i ws else block_row cols i ws))
               (zrange nvec))
     else if padv && (ndim shape =? 2) then Err ValueError   (* a 2-D slice cannot be broadcast into vec_pad[0::3] *)
-    else Ok [finish key ws]
+    else Ok [mk_array point padv n ncomp key ws]
   end.
 
 (* sequencing of results in program order: the first error wins *)
@@ -225,3 +228,11 @@ Definition f32_close (x : Q) (w : word) : bool :=
     Qle_bool err (Qmult (Qabs x) (Qmake 1 16777216)) || Qle_bool err (Qmake 1 (Z.to_pos (2 ^ 150)))
   end.
 Definition word_okb (w : word) : bool := Nat.eqb (length w) 4 && forallb byte_okb w.
+
+(* reading the decoded bytes back as 4-byte words (np.frombuffer(.., '<f4') on the word level) *)
+Fixpoint chunk4 (l : list Z) : list word :=
+  match l with
+  | a :: b :: c :: d :: t => [a; b; c; d] :: chunk4 t
+  | _ => []
+  end.
+
